@@ -846,7 +846,7 @@ impl<const N: u32> PxE2<{ N }> {
         } else {
             let shift = 32 - N;
             if ((ui_a >> shift) != (0x_7FFF_FFFF >> shift))
-                && (((0x_8000_0000_u32 >> N) & ui_a) != 0)
+                && ((u32_zero_shr(0x_8000_0000_u32, N) & ui_a) != 0)
                 && ((((0x_8000_0000_u32 >> (N - 1)) & ui_a) != 0)
                     || (((0x_7FFF_FFFF_u32 >> N) & ui_a) != 0))
             {
@@ -914,7 +914,7 @@ impl<const N: u32> PxE2<{ N }> {
 
                 let shift = 32 - N;
                 if ((u_z >> shift) != (0x_7FFF_FFFF >> shift))
-                    && (((0x_8000_0000_u32 >> N) & u_z) != 0)
+                    && ((u32_zero_shr(0x_8000_0000_u32, N) & u_z) != 0)
                     && ((((0x_8000_0000_u32 >> (N - 1)) & u_z) != 0)
                         || (((0x_7FFF_FFFF_u32 >> N) & u_z) != 0))
                 {
@@ -981,7 +981,7 @@ impl<const N: u32> PxE2<{ N }> {
 
             let shift = 32 - N;
             if ((u_z >> shift) != (0x_7FFF_FFFF >> shift))
-                && ((((0x_8000_0000_u32 >> N) & u_z) != 0)
+                && (((u32_zero_shr(0x_8000_0000_u32, N) & u_z) != 0)
                     && ((((0x_8000_0000_u32 >> (N - 1)) & u_z) != 0)
                         || (((0x_7FFF_FFFF_u32 >> N) & u_z) != 0)))
             {
@@ -1213,7 +1213,7 @@ impl<const N: u32> PxE1<{ N }> {
             let shift = 32 - N;
 
             if ((u_z >> shift) != (0x_7FFF_FFFF >> shift))
-                && (((0x_8000_0000_u32 >> N) & u_z) != 0)
+                && ((u32_zero_shr(0x_8000_0000_u32, N) & u_z) != 0)
                 && ((((0x_8000_0000_u32 >> (N - 1)) & u_z) != 0)
                     || (((0x_7FFF_FFFF_u32 >> N) & u_z) != 0))
             {
@@ -1253,7 +1253,7 @@ impl<const N: u32> PxE1<{ N }> {
         } else {
             let shift = 32 - N;
             if ((ui_a >> shift) != (0x_7FFF_FFFF >> shift))
-                && (((0x_8000_0000_u32 >> N) & ui_a) != 0)
+                && ((u32_zero_shr(0x_8000_0000_u32, N) & ui_a) != 0)
                 && (((0x_8000_0000_u32 >> (N - 1)) & ui_a) != 0
                     || ((0x_7FFF_FFFF_u32 >> N) & ui_a) != 0)
             {
